@@ -45,7 +45,7 @@ def confirm(wt, out, prop, sid, dest):
     for attempt in range(3):
         b = sh(f"/venv/bin/python /verif/selftest/baseline.py {wt}")
         line = [l for l in b.stdout.splitlines() if l.startswith("baseline:")]
-        meta["ran"]["baseline_with_change"] = line[0] if line else b.stdout[-300:]
+        meta["ran"]["baseline_with_change"] = line[-1] if line else b.stdout[-300:]
         if b.returncode == 0:
             break
         time.sleep(20)
